@@ -8,6 +8,9 @@ def unhx(s):
     return float.fromhex(s)
 def exc_info(e):
     import traceback
+    import os
     tb = traceback.extract_tb(e.__traceback__)
-    where = tb[-1].name if tb else ''
-    return dict(exception=type(e).__name__, message=str(e)[:300], raised_in=where)
+    repo = os.environ.get('PM_REPO', '/repo')
+    rframes = [f for f in tb if f.filename.startswith(repo)]
+    where = rframes[-1].name if rframes else (tb[-1].name if tb else '')
+    return dict(exception=type(e).__name__, message=str(e)[:300], raised_in=where, in_repo=bool(rframes))
